@@ -8,7 +8,7 @@ MODEL = {
     'proj_lecturers': ('list', 'int'),
     'pairs': REFS2, 'project_lists': REFS2, 'lecturer_lists': REFS2, 'rank_lists': REFS2,
     'time_start': 'real', 'time_after_model_creation': 'real', 'time_after_solve': 'real',     # datetimes as seconds (T12)
-    'project_closures': ('list', 'var'), 'abs_lec_diff': ('list', 'var'),
+    'project_closures': ('list', 'var'), 'abs_lec_diff': ('list', 'var'), 'lec_overload': ('list', 'aff'), 'lec_underload': ('list', 'aff'),
     'info_string': ('str', 'info'), 'pulp_status': ('str', 'status'),
     'OPTIMAL_PULP_STATUS': ('const_str', 'Optimal'), 'NOTSOLVED_PULP_STATUS': ('const_str', 'Not Solved'),
 }
@@ -17,7 +17,7 @@ CLASSES = {
     'Model': MODEL,
     'LP_Solver': {'model': ('obj', 'Model'), 'prob': ('ext', 'LpProblem'), 'info_string': ('str', 'info'), 'solver': ('ext', 'cbc'),
                   'instance_options': IOPT, 'extra_constraints': ('dict', 'Extra_constraints', {'STAB': 'bool'}),
-                  'optimisation_options': ('list', 'crit')},
+                  'optimisation_options': ('list', 'crit'), 'solve_performed': 'bool'},
     'Brute_force_solver': {'model': ('obj', 'Model'),
                            'optimal_generousmaxprofile': ('absent', ('list', 'int')), 'optimal_greedymaxprofile': ('absent', ('list', 'int')),
                            'optimal_greedyprofile': ('absent', ('list', 'int')),
